@@ -63,12 +63,20 @@ DoRemove(p, g) == LET n == At(tree, p) I == Idx(n, g) IN
     /\ IF Cardinality(I) = 1 THEN Step("remove", p, [tag |-> g], "ok", Put(tree, p, [n EXCEPT !.sub = Without(@, CHOOSE i \in I : TRUE)]))
        ELSE Step("remove", p, [tag |-> g], "state", tree)
 
+(* steps that change nothing in the tree, but much in an implementation that converts lazily between a raw payload and a list of children:          *)
+(*   Reparse   the root is serialized and parsed again (the objects now point into received bytes instead of having been built)                   *)
+(*   Raw(p)    the raw payload of the element at p is asked for (KSI_TLV_getRawValue collapses an expanded element; a later edit expands it again)  *)
+DoReparse == Step("reparse", <<>>, [tag |-> 0], "ok", tree)
+DoRaw(p) == Step("raw", p, [tag |-> 0], "ok", tree)
+
 Init == /\ tree \in {[tag |-> g, nc |-> FALSE, fw |-> FALSE, len |-> 0, sub |-> <<>>] : g \in RootTags}
         /\ hist = <<>>
 Next == /\ Len(hist) < MaxOps
         /\ \E p \in Paths(tree, MaxDepth - 1) :
               \/ \E e \in Elements : DoAppend(p, e) \/ DoSet(p, e)
               \/ \E g \in {e.tag : e \in Elements} : DoRemove(p, g)
+              \/ DoRaw(p)
+              \/ (p = <<>> /\ tree.sub # <<>> /\ DoReparse)
 Spec == Init /\ [][Next]_<<tree, hist>>
 
 (* sanity of the model itself *)
